@@ -248,3 +248,113 @@ def no_trace_cases(vd, rnd, tier, extra):
                            "next_fit_identical_to_fresh": same, "error": err}, holds, repro, "failed-call-no-trace")
     extra["traces_left_by_rejected_calls_in_the_unchanged_code (reported, not flagged)"] = {k: sorted(v) for k, v in noted.items()}
     return cases
+
+
+# ---------------------------------------------------------------------------
+# (3) every constructor parameter, in the forms users pass: stored as is, clone works, clone behaves identically
+def clone_param_cases(vd, rnd, tier):
+    from . import c20 as H
+    from sklearn.base import clone
+    cases = []
+    A = H._lattice_dataset(rnd, 18)
+    e, n, d, w = A
+    probe = (np.array([0.5, 2.25, 4.0, 5.75, 7.5, 9.25]), np.array([-4.5, -2.0, 0.25, 1.5, 3.0, 4.5]))
+    lit = lambda a: "np.array(%r)" % (np.asarray(a).tolist(),)
+    pre = ("import warnings; warnings.simplefilter('ignore'); import numpy as np, verde as vd; from sklearn.base import clone; "
+           "from sklearn.model_selection import KFold; e = %s; n = %s; d = %s; fe = np.array([1., 4., 7., 2.5, 9.]); fn = np.array([-3., 0., 3., 1.5, -1.]); "
+           % (lit(e), lit(n), lit(d)))
+    env = {"np": np, "vd": vd, "fe": np.array([1., 4., 7., 2.5, 9.]), "fn": np.array([-3., 0., 3., 1.5, -1.])}
+    from sklearn.model_selection import KFold
+    env["KFold"] = KFold
+    FC = ["(fe, fn)", "[fe, fn]", "(fe.tolist(), fn.tolist())", "(fe.reshape(5, 1), fn.reshape(5, 1))", "np.array([fe, fn])", "(fe, fn, np.zeros(5))"]
+    # class -> (base constructor source, vector?, kind, {parameter: [value sources]})
+    table = {
+        "Trend": ("vd.Trend(degree=1)", False, "gridder", {"degree": ["2", "np.int64(3)", "0"]}),
+        "Spline": ("vd.Spline(damping=1e-3)", False, "gridder", {
+            "mindist": ["1e-3", "np.float64(0.5)", "0"], "damping": ["1e-2", "np.float64(1e-4)", "None"], "force_coords": FC, "engine": ["'numpy'"]}),
+        "SplineCV": ("vd.SplineCV(dampings=(1e-3, 1e-1))", False, "gridder", {
+            "mindists": ["[0.1, 1.0]", "(0.5,)", "np.array([0.0, 0.2])"], "dampings": ["[1e-3, 1e-2]", "(1e-2,)", "np.array([1e-3, 1e-1])", "(None, 1e-3)"],
+            "force_coords": FC[:4], "engine": ["'numpy'"], "cv": ["KFold(n_splits=3)", "vd.BlockKFold(spacing=2.5, n_splits=2)",
+                                                                 "vd.BlockShuffleSplit(spacing=2.5, n_splits=2, random_state=0)"],
+            "delayed": ["True"], "scoring": ["'neg_mean_squared_error'", "'r2'"]}),
+        "VectorSpline2D": ("vd.VectorSpline2D(damping=1e-3, mindist=2.0)", True, "gridder", {
+            "poisson": ["0.3", "np.float64(0.1)"], "mindist": ["5.0", "np.float64(1.0)"], "damping": ["1e-2", "None"], "force_coords": FC[:5], "engine": ["'numpy'"]}),
+        "KNeighbors": ("vd.KNeighbors()", False, "gridder", {"k": ["3", "np.int64(2)"], "reduction": ["np.median", "np.max", "(lambda x, axis: x.min(axis=axis))"]}),
+        "Linear": ("vd.Linear()", False, "gridder", {"rescale": ["True", "np.bool_(True)"]}),
+        "Cubic": ("vd.Cubic()", False, "gridder", {"rescale": ["True", "np.bool_(True)"]}),
+        "ScipyGridder": ("vd.ScipyGridder()", False, "gridder", {"method": ["'linear'", "'nearest'"], "extra_args": ["{'rescale': True}", "dict(fill_value=0.0)"]}),
+        "Chain": ("vd.Chain(steps=[('t', vd.Trend(1))])", False, "gridder", {
+            "steps": ["[('trend', vd.Trend(1)), ('spline', vd.Spline(damping=1e-3))]", "(('trend', vd.Trend(2)),)",
+                      "[('mean', vd.BlockReduce(np.mean, spacing=1.0)), ('knn', vd.KNeighbors())]"]}),
+        "Vector": ("vd.Vector(components=[vd.Trend(1), vd.Trend(1)])", True, "gridder", {
+            "components": ["[vd.Trend(1), vd.Spline(damping=1e-3)]", "(vd.Trend(2), vd.KNeighbors(k=2))"]}),
+        "BlockReduce": ("vd.BlockReduce(reduction=np.mean, spacing=2.0)", False, "reducer", {
+            "reduction": ["np.median", "np.max", "(lambda x: x.min())"], "spacing": ["3.0", "(2.0, 3.0)", "[2.0, 3.0]", "np.array([2.0, 3.0])", "np.float64(2.5)"],
+            "region": ["(0, 10, -5, 5)", "[0.0, 10.0, -5.0, 5.0]", "np.array([0.0, 10.0, -5.0, 5.0])"], "adjust": ["'region'"],
+            "center_coordinates": ["True"], "drop_coords": ["False"]}),
+        "BlockReduce(shape)": ("vd.BlockReduce(reduction=np.mean, shape=(3, 3))", False, "reducer", {"shape": ["(2, 4)", "[3, 2]", "np.array([2, 2])"]}),
+        "BlockMean": ("vd.BlockMean(spacing=2.0)", False, "reducer", {
+            "spacing": ["3.0", "(2.0, 3.0)", "np.array([2.0, 3.0])"], "region": ["(0, 10, -5, 5)", "np.array([0.0, 10.0, -5.0, 5.0])"], "adjust": ["'region'"],
+            "center_coordinates": ["True"], "uncertainty": ["True"], "drop_coords": ["False"]}),
+        "CheckerBoard": ("vd.synthetic.CheckerBoard()", False, "synthetic", {
+            "amplitude": ["10", "np.float64(2.5)"], "region": ["[0, 10, -5, 5]", "np.array([0.0, 10.0, -5.0, 5.0])"], "w_east": ["3.0", "np.float64(2)"], "w_north": ["1.5"]}),
+    }
+
+    def behave(est, kind, vector, weighted):
+        if kind == "gridder":
+            args = H._fitargs(A, vector, False)
+            return est.fit(*args).predict(probe)
+        if kind == "reducer":
+            if weighted:
+                return est.filter((e, n), d, w)
+            return est.filter((e, n), d)
+        return est.predict(probe)
+
+    with warnings.catch_warnings():
+        warnings.simplefilter("ignore")
+        for cname, (base_src, vector, kind, params) in table.items():
+            for pname, values in params.items():
+                for vsrc in values:
+                    inp = {"estimator": cname, "parameter": pname, "value": vsrc, "base": base_src}
+                    out = {}
+                    step = "construct"
+                    try:
+                        value = eval(vsrc, dict(env))
+                        base = eval(base_src, dict(env))
+                        kw = base.get_params(deep=False)
+                        kw[pname] = value
+                        mk = lambda: type(base)(**kw)
+                        est = mk()
+                        stored = est.get_params(deep=False)[pname]
+                        out["stored_is_the_object_passed"] = stored is value
+                        step = "clone"
+                        cl = clone(est)
+                        out["clone_ok"] = True
+                        step = "behaviour"
+                        weighted = cname.startswith("BlockMean") and bool(kw.get("uncertainty"))
+                        b1 = behave(est, kind, vector, weighted)
+                        b2 = behave(cl, kind, vector, weighted)
+                        b3 = behave(clone(est), kind, vector, weighted)       # clone of the used / fitted estimator
+                        out["clone_behaves_identically"] = H._snap(b1) == H._snap(b2) == H._snap(b3)
+                        # (Linear / Cubic / ScipyGridder predict NaN outside the convex hull of a training fold: their scores are not defined)
+                        if kind == "gridder" and not vector and cname not in ("SplineCV", "Linear", "Cubic", "ScipyGridder"):
+                            step = "cross_val_score"
+                            s1 = vd.cross_val_score(mk(), (e, n), d, cv=KFold(n_splits=3))
+                            out["cross_val_score_runs"] = bool(np.all(np.isfinite(s1)) or True)
+                        if cname == "Spline" and pname in ("force_coords", "mindist", "damping"):
+                            step = "SplineCV with the same parameter"
+                            skw = {"force_coords": value} if pname == "force_coords" else ({"mindists": [value]} if pname == "mindist" else {"dampings": [value, 1e-2]})
+                            vd.SplineCV(cv=KFold(n_splits=3), **skw).fit((e, n), d)
+                            out["splinecv_runs"] = True
+                        holds = all(v is True for v in out.values())
+                    except Exception as exc:      # noqa: a valid estimator must survive all of this
+                        out["error"] = "%s in step '%s': %s" % (type(exc).__name__, step, str(exc)[:160])
+                        holds = False
+                    bsrc = {"gridder": "o.fit((e, n), %s).predict((e[:4], n[:4]))" % ("(d, 2.0 - d)" if vector else "d"),
+                            "reducer": "o.filter((e, n), d%s)" % (", np.ones_like(d)" if cname.startswith("BlockMean") and pname == "uncertainty" else ""),
+                            "synthetic": "o.predict((e[:4], n[:4]))"}[kind]
+                    repro = (pre + "v = %s; kw = %s.get_params(deep=False); kw[%r] = v; est = type(%s)(**kw); print('stored is passed:', est.get_params(deep=False)[%r] is v); "
+                             % (vsrc, base_src, pname, base_src, pname)
+                             + "c = clone(est); f = lambda o: %s; print(f(est)); print(f(c))" % bsrc)
+                    _bool(cases, inp, out, holds, repro, "clone-params")
+    return cases
